@@ -415,6 +415,7 @@ static Fate gen_fate(Sim *S, int stream, uint64_t ord, uint64_t now, const Dgram
 			if (S->U("fate.rdid", k2) < c.p_rd_newid) r.idxor = (uint16_t)(1 + S->D("fate.rdidv", k2) % 65535);
 			if (S->U("fate.rdcase", k2) < c.p_rd_recase) r.recase = (S->D("fate.rdcasek", k2) & 0x7fffffffffffull) | 1;
 			if (S->U("fate.rdsrc", k2) < c.p_rd_altsrc) r.altsrc = true;
+			else if (c.p_rd_altport > 0 && S->U("fate.rdport", k2) < c.p_rd_altport) r.altport = true;
 			if (S->U("fate.rdtype", k2) < c.p_rd_retype) { static const uint16_t ty[] = {10, 16, 5, 15, 33, 1, 65399}; r.retype = ty[S->D("fate.rdtypev", k2) % 7]; }
 			f.redeliv.push_back(r);
 		}
@@ -544,6 +545,7 @@ static void route(Sim *S, Dgram d)
 			if (o + 5 <= c.data.size() && !c.data[o]) { uint16_t old = (uint16_t)((c.data[o + 1] << 8) | c.data[o + 2]); if (old != r.retype) { c.data[o + 1] = r.retype >> 8; c.data[o + 2] = r.retype & 255; c.retyped = true; S->count("fault.redeliver.retype"); } }
 		}
 		if (r.altsrc) { Addr orig = c.src; if (c.src.fam == AF_INET) { c.src.a[2] ^= 0x40; c.src.a[3] ^= 0x15; } else c.src.a[15] ^= 0x15; S->rd_altmap[c.src.str()] = orig; S->count("fault.redeliver.altsrc"); }
+		if (r.altport) { Addr orig = c.src; c.src.port = (uint16_t)(c.src.port ^ 0x2aaa); if (c.src.port < 1024) c.src.port = (uint16_t)(c.src.port + 20000); S->rd_altmap[c.src.str()] = orig; S->count("fault.redeliver.altport"); }
 		S->count("fault.redeliver");
 		S->at(t + r.delay, [S, c]() { if (S->redeliver_gate && !S->redeliver_gate(c)) { S->count("fault.redeliver.outside_window"); return; } S->deliver(c); });
 	}
